@@ -15,6 +15,7 @@ pub mod std_io_shim {
     pub use super::IoError as Error;
 }
 
+pub type IoResult<T> = Result<T, IoError>;
 pub type SeqNo = u64;
 pub type InternalKeyspaceId = u64;
 
@@ -129,6 +130,8 @@ pub mod axioms {
     use vstd::prelude::*;
     pub broadcast axiom fn array_slice_eq_spec<const N: usize>(a: [u8; N], b: &[u8])
         ensures #[trigger] vstd::std_specs::cmp::PartialEqSpec::eq_spec(&a, &b) == (a@ == b@);
+    pub broadcast axiom fn slice_array_eq_spec<const N: usize>(a: &[u8], b: [u8; N])
+        ensures #[trigger] vstd::std_specs::cmp::PartialEqSpec::eq_spec(&a, &b) == (a@ == b@);
 }
 // lz4 worst-case expansion (LZ4_compressBound / lz4_flex::block::get_maximum_output_size)
 pub mod lz4_axioms {
@@ -137,3 +140,10 @@ pub mod lz4_axioms {
     pub broadcast axiom fn lz4_bound(v: Seq<u8>)
         ensures #[trigger] lz4_compress_spec(v).len() <= v.len() + v.len() / 255 + 16;
 }
+// rule R-SLICE: end of a verified statement range; what follows in the source is not verified text, so nothing
+// is claimed about the state after this point (the slice's own postcondition is asserted just before it)
+#[verifier::external_body]
+pub fn shim_slice_end<A>() -> A ensures false { unimplemented!() }
+// std::mem::take: returns the old value, leaves Default::default() behind
+pub assume_specification<T: Default>[std::mem::take::<T>](dest: &mut T) -> (r: T)
+    ensures r == *old(dest), call_ensures(T::default, (), *final(dest));
